@@ -438,6 +438,10 @@ def run(chk):
     bulk(chk)
     reentrant_disconnect(chk)
     backlog_then_reconnect(chk)
+    # the flush that drains the queue in disconnect() with application listeners attached (a veto, before or after the write,
+    # concerns that packet only; the packets queued behind it are still written once, in order): C13's direct suite
+    import c13
+    c13.run_direct(chk, 120)
     import encsess
     encsess.run(chk, 'encrypted-large-writes', 3, rng)
     if good:
